@@ -367,6 +367,7 @@ Example C02_nonvacuous_aligned :
   region2block m s = OK ([1; 0]%Z, [2; 1]%Z) /\
   inside_box m [4; (-1)] /\ inside_box m [0; 2].
 Proof. exact nonvacuous_aligned. Qed.
+Print Assumptions C02_nonvacuous_aligned.
 
 (* non-vacuity: a concrete well-formed mesh, an in-range cell, a sampled centre *)
 Example C02_nonvacuous :
@@ -376,3 +377,4 @@ Example C02_nonvacuous :
   wf_mesh m /\ in_range (n m) [3; 0]%Z /\ sample f [4; (-1)] = OK [3%Z] /\
   (exists a, as_array_fun m 2 (fun p => p) = OK a /\ qlist_eqb (a [3; 0]%Z) [7 # 2; (-3) # 4] = true).
 Proof. exact nonvacuous_field. Qed.
+Print Assumptions C02_nonvacuous.
